@@ -213,7 +213,7 @@ def build_model(names=None):
         sh([os.path.join(xdir, "build.sh"), name, MODEL_DIR], timeout=1200)
 
 
-MODEL_VOS = ["theories/Interp/Run.vo", "theories/Spec/Wire.vo", "theories/Spec/PcapRead.vo", "theories/Spec/Reasm4.vo", "theories/Spec/Tunnel.vo",
+MODEL_VOS = ["theories/Interp/Run.vo", "theories/Spec/Wire.vo", "theories/Spec/PcapRead.vo", "theories/Spec/Reasm4.vo", "theories/Spec/Tunnel.vo", "theories/Spec/TunnelPeel.vo",
              "theories/Spec/Timeline.vo", "theories/Spec/TcpAccount.vo", "theories/Lex/Scanner.vo", "theories/Lex/LexSpec.vo",
              "theories/Lib/DocsStd.vo", "theories/Spec/Registry.vo", "theories/Spec/DocCall.vo", "theories/Bind/Binder.vo",
              "theories/Spec/Literal.vo", "theories/Lex/Literals.vo", "theories/Parse/Automaton.vo",
